@@ -119,6 +119,72 @@ func lockReentrancy(p *load.Program, r *core.Report, rule, rid string, floor int
 		}
 		return out
 	}
+	// callee lists, computed once
+	calleesOf := map[*ssa.Function][]*ssa.Function{}
+	for _, f := range all {
+		var out []*ssa.Function
+		seen := map[*ssa.Function]bool{}
+		eachInstr(f, func(x ssa.Instruction) {
+			c, ok := x.(*ssa.Call)
+			if !ok {
+				return
+			}
+			for _, g := range callees(c) {
+				if !seen[g] {
+					seen[g] = true
+					out = append(out, g)
+				}
+			}
+		})
+		calleesOf[f] = out
+	}
+	// for a lock (owner, field): which functions take it, directly or through synchronous callees,
+	// in a way that conflicts with holding it in mode `held` — with a witness path
+	type lockID struct{ owner, field, held string }
+	type reach struct {
+		next *ssa.Function // nil: takes it itself
+		kind string
+	}
+	memo := map[lockID]map[*ssa.Function]reach{}
+	reachers := func(id lockID) map[*ssa.Function]reach {
+		if m, ok := memo[id]; ok {
+			return m
+		}
+		m := map[*ssa.Function]reach{}
+		for f, ls := range takes {
+			for _, l2 := range ls {
+				if l2.owner == id.owner && l2.field == id.field && !(id.held == "RLock" && l2.kind == "RLock") {
+					m[f] = reach{nil, l2.kind}
+				}
+			}
+		}
+		// backward closure over the callee relation
+		callers := map[*ssa.Function][]*ssa.Function{}
+		for f, cs := range calleesOf {
+			for _, g := range cs {
+				callers[g] = append(callers[g], f)
+			}
+		}
+		var work []*ssa.Function
+		for f := range m {
+			work = append(work, f)
+		}
+		sort.Slice(work, func(i, j int) bool { return work[i].String() < work[j].String() })
+		for len(work) > 0 {
+			g := work[0]
+			work = work[1:]
+			cs := callers[g]
+			sort.Slice(cs, func(i, j int) bool { return cs[i].String() < cs[j].String() })
+			for _, f := range cs {
+				if _, ok := m[f]; !ok {
+					m[f] = reach{g, m[g].kind}
+					work = append(work, f)
+				}
+			}
+		}
+		memo[id] = m
+		return m
+	}
 	seq := map[string]int{}
 	for _, f := range all {
 		eachInstr(f, func(in ssa.Instruction) {
@@ -161,49 +227,27 @@ func lockReentrancy(p *load.Program, r *core.Report, rule, rid string, floor int
 					}
 				}
 			}
-			type item struct {
-				f    *ssa.Function
-				path []string
-			}
-			var q []item
+			rs := reachers(lockID{l.owner, l.field, l.kind})
+			hit := ""
 			for _, c := range calls {
 				for _, g := range callees(c) {
-					q = append(q, item{g, []string{fname(g)}})
-				}
-			}
-			seenF := map[*ssa.Function]bool{}
-			hit := ""
-			n := 0
-			for len(q) > 0 && hit == "" && n < 5000 {
-				it := q[0]
-				q = q[1:]
-				if seenF[it.f] {
-					continue
-				}
-				seenF[it.f] = true
-				n++
-				for _, l2 := range takes[it.f] {
-					if l2.owner == l.owner && l2.field == l.field && !(l.kind == "RLock" && l2.kind == "RLock") {
-						hit = strings.Join(it.path, " -> ") + " takes " + l2.kind
+					if r0, ok := rs[g]; ok {
+						path := []string{fname(g)}
+						for x := r0; x.next != nil && len(path) < 16; x = rs[x.next] {
+							path = append(path, fname(x.next))
+						}
+						hit = strings.Join(path, " -> ") + " takes " + r0.kind
+						break
 					}
 				}
-				if len(it.path) > 12 {
-					continue
+				if hit != "" {
+					break
 				}
-				eachInstr(it.f, func(x ssa.Instruction) {
-					c, ok := x.(*ssa.Call)
-					if !ok {
-						return
-					}
-					for _, g := range callees(c) {
-						q = append(q, item{g, append(append([]string(nil), it.path...), fname(g))})
-					}
-				})
 			}
 			if hit != "" {
 				r.Bad(rule, key, fn, p.Pos(in.Pos()), inst, "self-deadlock: "+hit+" (the goroutine waits for the lock it holds)")
 			} else {
-				r.OK(rule, key, fn, p.Pos(in.Pos()), inst, fmt.Sprintf("%d call(s) in the critical section, %d function(s) reachable, none locks it again", len(calls), n))
+				r.OK(rule, key, fn, p.Pos(in.Pos()), inst, fmt.Sprintf("%d call(s) in the critical section, none reaches a function that locks it again (%d such functions in the program)", len(calls), len(rs)))
 			}
 		})
 	}
